@@ -234,12 +234,12 @@ Proof.
 Qed.
 
 (* ---------- toggle_rows ---------- *)
-Lemma bp_toggle_rows_some b : forall n rows r rows',
+Lemma bp_toggle_rows_some (b : bool) : forall n rows r rows',
   toggle_rows rows r n b = Some rows' ->
   length rows' = length rows /\
   (forall j, (r <= j < r + n)%nat -> nth_error rows j = Some (if b then MAX64 else 0)) /\
   (forall j, nth_error rows' j =
-             if ((r <=? j) && (j <? r + n))%nat then Some (if b then 0 else MAX64) else nth_error rows j).
+             if (r <=? j)%nat && (j <? r + n)%nat then Some (if b then 0 else MAX64) else nth_error rows j).
 Proof.
   induction n as [|n IH]; intros rows r rows' H; cbn [toggle_rows] in H.
   - injection H as <-. split; [reflexivity|]. split; [intros; lia|].
@@ -257,7 +257,7 @@ Proof.
       subst j. destruct (Nat.ltb_spec r (length rows)); [reflexivity | lia].
 Qed.
 
-Lemma bp_toggle_rows_complete b : forall n rows r,
+Lemma bp_toggle_rows_complete (b : bool) : forall n rows r,
   (forall j, (r <= j < r + n)%nat -> nth_error rows j = Some (if b then MAX64 else 0)) ->
   exists rows', toggle_rows rows r n b = Some rows'.
 Proof.
@@ -282,7 +282,172 @@ Proof.
   { rewrite (bp_pow2_split k m Hkm). rewrite mod_mod_mul by assumption. exact Hx. }
   split; [exact E|].
   assert (L : x mod pow2 m < pow2 m) by (apply N.mod_lt, bp_pow2_nz).
-  set (y := x mod pow2 m) in *. rewrite (bp_pow2_split k m Hkm) in *.
-  pose proof (N.div_mod y (pow2 k) Hk) as D. rewrite E in D.
-  set (q := y / pow2 k) in *. nia.
+  rewrite (bp_pow2_split k m Hkm) in *.
+  pose proof (N.div_mod (x mod (pow2 k * pow2 (m - k))) (pow2 k) Hk) as D. rewrite E in D.
+  revert L D. generalize (x mod (pow2 k * pow2 (m - k))) as y.
+  generalize (pow2 k) as a, (pow2 (m - k)) as c. intros a c y. generalize (y / a) as q.
+  intros q L D. assert (q < c) by nia. nia.
 Qed.
+
+(* ---------- bf_toggle with expected = true ---------- *)
+Ltac Zify.zify_post_hook ::= Z.div_mod_to_equations.
+
+Lemma bp_upd_row_bits rows r e e' :
+  Forall (fun r => r < W64) rows -> nth_error rows (nn r) = Some e -> e' < W64 ->
+  forall i, N.testbit (rows_bits (upd rows (nn r) e')) i =
+            if i / 64 =? r then N.testbit e' (i mod 64) else N.testbit (rows_bits rows) i.
+Proof.
+  intros Hf He He' i. rewrite bp_rows_bits_testbit by (apply bp_Forall_upd; assumption).
+  rewrite bp_rows_bits_testbit by assumption. rewrite bp_nth_error_upd.
+  assert (nn r < length rows)%nat by (apply nth_error_Some; congruence).
+  destruct (N.eqb_spec (i / 64) r) as [->|Hne].
+  - rewrite Nat.eqb_refl. destruct (Nat.ltb_spec (nn r) (length rows)); [reflexivity | lia].
+  - destruct (Nat.eqb_spec (nn r) (nn (i / 64))); [exfalso; unfold nn in *; lia | reflexivity].
+Qed.
+
+Lemma bp_land_lt a b : a < W64 -> N.land a b < W64.
+Proof.
+  intros Ha. rewrite W64_pow. apply lt_pow2_bits. intros i Hi. rewrite N.land_spec.
+  rewrite (bp_testbit_high64 a i) by assumption. reflexivity.
+Qed.
+
+Lemma bp_mod64_of_aligned f k : (6 <= k)%nat -> f mod pow2 k = 0 -> f mod 64 = 0.
+Proof.
+  intros Hk Hf. change 64 with (pow2 6). rewrite <- (mod_mod_mul f (pow2 6) (pow2 (k - 6))).
+  - rewrite <- (bp_pow2_split 6 k Hk), Hf. reflexivity.
+  - apply bp_pow2_nz.
+  - apply bp_pow2_nz.
+Qed.
+
+Section Toggle.
+  Variable g : geom.
+  Hypothesis WF : wf_geom g.
+
+  Lemma bp_ROWS_nz : ROWS g <> 0.
+  Proof. pose proof (bp_ROWS_pos g WF). lia. Qed.
+
+  Lemma bp_pos_row f : (f / 64) mod ROWS g = (f mod HF g) / 64.
+  Proof. rewrite (bp_HF_rows g WF). symmetry. apply div_mod_mul; [discriminate | apply bp_ROWS_nz]. Qed.
+
+  Lemma bp_pos_bit f : f mod 64 = (f mod HF g) mod 64.
+  Proof. rewrite (bp_HF_rows g WF). symmetry. apply mod_mod_mul; [discriminate | apply bp_ROWS_nz]. Qed.
+
+  Lemma bp_row_lt f : (f / 64) mod ROWS g < ROWS g.
+  Proof. apply N.mod_lt, bp_ROWS_nz. Qed.
+
+  Lemma bp_HF_pow2 : HF g = pow2 (hord g).
+  Proof. reflexivity. Qed.
+
+  Definition toggle_true_post (rows : list N) (p w : N) (r : option (list N)) : Prop :=
+    match r with
+    | Some rows' =>
+        rows_ok g rows' /\
+        (forall i, p <= i < p + w -> N.testbit (rows_bits rows) i = true) /\
+        (forall i, N.testbit (rows_bits rows') i =
+                   N.testbit (rows_bits rows) i && negb ((p <=? i) && (i <? p + w)))
+    | None => ~ (forall i, p <= i < p + w -> N.testbit (rows_bits rows) i = true)
+    end.
+
+  Lemma bp_toggle_true_small rows f k : rows_ok g rows -> (k <= 6)%nat -> f mod pow2 k = 0 ->
+    toggle_true_post rows (f mod HF g) (pow2 k) (bf_toggle g rows f k true).
+  Proof.
+    intros (Hl & Hf) Hk Ha. unfold bf_toggle.
+    destruct (Nat.leb_spec k 6) as [_|]; [|lia].
+    pose proof (bp_row_lt f) as Hr. pose proof (bp_pos_row f) as Er. pose proof (bp_pos_bit f) as Eb.
+    destruct (bp_aligned_fit k 6 f Hk Ha) as (_ & Hfit). change (pow2 6) with 64 in Hfit.
+    set (r := (f / 64) mod ROWS g) in *. set (s := f mod 64) in *. set (p := f mod HF g) in *.
+    set (w := pow2 k) in *.
+    assert (Ep : p = 64 * r + s) by (rewrite Er, Eb; apply N.div_mod; discriminate).
+    assert (Hs : s < 64) by (apply N.mod_lt; discriminate).
+    rewrite (bp_ROWS_nat g WF), <- Hl in Hr.
+    unfold row_at. destruct (nth_error rows (nn r)) as [e|] eqn:He.
+    2:{ apply nth_error_None in He. unfold nn in He. lia. }
+    assert (Hrow : forall i, i / 64 = r -> N.testbit (rows_bits rows) i = N.testbit e (i mod 64)).
+    { intros i Hi. rewrite bp_rows_bits_testbit by assumption. rewrite Hi, He. reflexivity. }
+    assert (Hin : forall i, (p <=? i) && (i <? p + w) = (i / 64 =? r) && ((s <=? i mod 64) && (i mod 64 <? s + w))).
+    { intros i. destruct (N.leb_spec p i), (N.ltb_spec i (p + w)), (N.eqb_spec (i / 64) r),
+        (N.leb_spec s (i mod 64)), (N.ltb_spec (i mod 64) (s + w)); cbn [andb]; try reflexivity; exfalso; lia. }
+    destruct (N.land e (mask64 w s) =? mask64 w s) eqn:C.
+    - pose proof (proj1 (bp_land_eq_mask _ _) C) as Hm. cbn [toggle_true_post].
+      assert (He' : N.land e (not64 (mask64 w s)) < W64).
+      { apply bp_land_lt. eapply bp_Forall_nth_inv; eassumption. }
+      split; [|split].
+      + split; [rewrite upd_length; exact Hl | apply bp_Forall_upd; assumption].
+      + intros i Hi. assert (T := Hin i).
+        destruct (N.leb_spec p i), (N.ltb_spec i (p + w)); try lia. cbn [andb] in T.
+        symmetry in T. apply andb_true_iff in T. destruct T as (T1 & T2). apply N.eqb_eq in T1.
+        rewrite Hrow by assumption. apply Hm. rewrite bp_testbit_mask64. exact T2.
+      + intros i. rewrite (bp_upd_row_bits rows r e) by assumption. rewrite Hin.
+        destruct (N.eqb_spec (i / 64) r) as [Ei|Ei].
+        * rewrite Hrow by assumption. rewrite N.land_spec, not64_spec, bp_testbit_mask64.
+          assert (i mod 64 < 64) by (apply N.mod_lt; discriminate).
+          destruct (N.ltb_spec (i mod 64) 64); [|lia]. reflexivity.
+        * cbn [andb negb]. rewrite andb_true_r. reflexivity.
+    - cbn [toggle_true_post]. intros Hall.
+      assert (C' : (N.land e (mask64 w s) =? mask64 w s) = true).
+      { apply bp_land_eq_mask. intros t Ht. rewrite bp_testbit_mask64 in Ht.
+        apply andb_true_iff in Ht. destruct Ht as (T1 & T2). apply N.leb_le in T1. apply N.ltb_lt in T2.
+        assert (E1 : (64 * r + t) / 64 = r) by lia.
+        assert (E2 : (64 * r + t) mod 64 = t) by lia.
+        rewrite <- E2, <- (Hrow (64 * r + t) E1). apply Hall. lia. }
+      congruence.
+  Qed.
+
+  Lemma bp_toggle_true_large rows f k : rows_ok g rows -> (6 < k)%nat -> (k <= hord g)%nat -> f mod pow2 k = 0 ->
+    toggle_true_post rows (f mod HF g) (pow2 k) (bf_toggle g rows f k true).
+  Proof.
+    intros (Hl & Hf) Hk Hkh Ha. unfold bf_toggle.
+    destruct (Nat.leb_spec k 6) as [|_]; [lia|].
+    pose proof (bp_pos_row f) as Er. pose proof (bp_pos_bit f) as Eb.
+    rewrite (bp_mod64_of_aligned f k) in Eb by (lia || assumption).
+    destruct (bp_aligned_fit k (hord g) f Hkh Ha) as (_ & Hfit). rewrite <- bp_HF_pow2 in Hfit.
+    assert (Ew : pow2 k = 64 * N.of_nat (Nat.pow 2 (k - 6))).
+    { rewrite bp_of_nat_pow2. rewrite (bp_pow2_split 6 k) by lia. reflexivity. }
+    rewrite (bp_HF_rows_nat g WF), <- Hl in Hfit.
+    set (di := (f / 64) mod ROWS g) in *. set (p := f mod HF g) in *.
+    set (nr := Nat.pow 2 (k - 6)) in *. rewrite Ew in *. clear Ew.
+    assert (Ep : p = 64 * di) by lia.
+    destruct (toggle_rows rows (nn di) nr true) as [rows'|] eqn:T; cbn [toggle_true_post].
+    - apply bp_toggle_rows_some in T. destruct T as (Hl' & Hold & Hnew).
+      split; [|split].
+      + split; [congruence|]. apply bp_Forall_nth. intros j x Hj. rewrite Hnew in Hj.
+        destruct ((nn di <=? j)%nat && (j <? nn di + nr)%nat).
+        * injection Hj as <-. reflexivity.
+        * eapply bp_Forall_nth_inv; eassumption.
+      + intros i Hi. rewrite bp_rows_bits_testbit by assumption.
+        rewrite Hold by (unfold nn; lia). rewrite MAX64_ones. apply N.ones_spec_low.
+        apply N.mod_lt; discriminate.
+      + intros i. rewrite !bp_rows_bits_testbit; [|assumption|].
+        2:{ apply bp_Forall_nth. intros j x Hj. rewrite Hnew in Hj.
+            destruct ((nn di <=? j)%nat && (j <? nn di + nr)%nat).
+            - injection Hj as <-. reflexivity.
+            - eapply bp_Forall_nth_inv; eassumption. }
+        rewrite Hnew.
+        destruct (Nat.leb_spec (nn di) (nn (i / 64))), (Nat.ltb_spec (nn (i / 64)) (nn di + nr)),
+          (N.leb_spec p i), (N.ltb_spec i (p + 64 * N.of_nat nr)); cbn [andb negb];
+          try (exfalso; unfold nn in *; lia).
+        * rewrite N.bits_0, andb_false_r. reflexivity.
+        * rewrite andb_true_r. reflexivity.
+        * rewrite andb_true_r. reflexivity.
+        * rewrite andb_true_r. reflexivity.
+    - intros Hall.
+      destruct (bp_toggle_rows_complete true nr rows (nn di)) as (rows' & T'); [|congruence].
+      intros j Hj. destruct (nth_error rows j) as [v|] eqn:Ev.
+      2:{ apply nth_error_None in Ev. unfold nn in *. lia. }
+      f_equal. rewrite MAX64_ones. apply bp_eq_ones.
+      + rewrite <- W64_pow. eapply bp_Forall_nth_inv; eassumption.
+      + intros t Ht. specialize (Hall (64 * N.of_nat j + t)).
+        rewrite bp_rows_bits_testbit in Hall by assumption.
+        replace (nn ((64 * N.of_nat j + t) / 64)) with j in Hall by (unfold nn; lia).
+        replace ((64 * N.of_nat j + t) mod 64) with t in Hall by lia.
+        rewrite Ev in Hall. apply Hall. unfold nn in *. lia.
+  Qed.
+
+  Lemma bp_toggle_true rows f k : rows_ok g rows -> (k <= hord g)%nat -> f mod pow2 k = 0 ->
+    toggle_true_post rows (f mod HF g) (pow2 k) (bf_toggle g rows f k true).
+  Proof.
+    intros. destruct (Nat.le_gt_cases k 6).
+    - apply bp_toggle_true_small; assumption.
+    - apply bp_toggle_true_large; assumption.
+  Qed.
+End Toggle.
